@@ -25,12 +25,17 @@ struct DropAfter<F: Future> {
     inner: Option<Pin<Box<F>>>,
     polls_left: usize,
     pub polled: usize,
+    /// leak the future instead of dropping it (the process died: no destructor runs)
+    forget: bool,
 }
 
 impl<F: Future> Future for DropAfter<F> {
     type Output = (Option<F::Output>, usize);
     fn poll(mut self: Pin<&mut Self>, cx: &mut Context<'_>) -> Poll<Self::Output> {
         if self.polls_left == 0 {
+            if self.forget {
+                std::mem::forget(self.inner.take());
+            }
             self.inner = None; // the client went away: the request future is dropped
             return Poll::Ready((None, self.polled));
         }
@@ -153,7 +158,7 @@ fn run_put(svc: &s3s::service::S3Service, headers: Vec<(String, String)>, steps:
             Err(e) => Err(format!("{e:?}")),
         }
     };
-    let (out, polls) = rt.block_on(DropAfter { inner: Some(Box::pin(fut)), polls_left: drop_after.unwrap_or(usize::MAX), polled: 0 });
+    let (out, polls) = rt.block_on(DropAfter { inner: Some(Box::pin(fut)), polls_left: drop_after.unwrap_or(usize::MAX), polled: 0, forget: false });
     // quiesce: dropping the runtime waits for blocking-pool work that has started
     drop(rt);
     std::thread::sleep(std::time::Duration::from_millis(2));
@@ -407,6 +412,54 @@ fn concurrent(c: &mut Case<'_>, multi_thread: bool) -> CaseResult {
     Ok(())
 }
 
+/// The process dies with several writes in flight (their futures are leaked after p polls: no destructor runs, nothing
+/// cleans up), then the backend is opened again on the same root: the start-up sweep must leave no temporary file behind
+/// and must not touch the object.
+fn restart_sweep(c: &mut Case<'_>, n_inflight: usize) -> CaseResult {
+    let st = stage(true);
+    let tmp_files = |root: &std::path::Path| -> Vec<String> {
+        std::fs::read_dir(root).map(|d| d.filter_map(|e| e.ok()).map(|e| e.file_name().to_string_lossy().into_owned()).filter(|n| n.contains(".tmp.")).collect()).unwrap_or_default()
+    };
+    let mut contents: Vec<Vec<u8>> = Vec::new();
+    for _ in 0..n_inflight {
+        let frames = payload(c, 3);
+        let content: Vec<u8> = frames.concat();
+        let polls = 2 + c.t.below(12);
+        let steps: Vec<Step> = frames.iter().map(|f| Step::Data(Bytes::copy_from_slice(f))).collect();
+        let req = http::Request::builder().method("PUT").uri(format!("/{BUCKET}/{KEY}")).header("host", "s3.example.test").header("content-length", content.len().to_string()).body(s3s::Body::http_body(FrameBody::new(steps, false))).expect("request");
+        let svc = st.raw_svc.clone();
+        let fut = async move { svc.call(req).await.map(|_| ()).map_err(|_| ()) };
+        let rt = fresh_rt(false);
+        let _ = rt.block_on(DropAfter { inner: Some(Box::pin(fut)), polls_left: polls, polled: 0, forget: true });
+        drop(rt);
+        contents.push(content);
+    }
+    std::thread::sleep(std::time::Duration::from_millis(2));
+    let left_by_crash = tmp_files(&st.env.root);
+    c.label(format!("in-flight:{n_inflight}"));
+    c.label(format!("temporary-files-at-crash:{}", left_by_crash.len().min(4)));
+    if left_by_crash.len() >= 2 {
+        c.nontrivial();
+    }
+    c.fp(&(n_inflight, left_by_crash.len()));
+    // restart
+    let reopened = s3s_fs::FileSystem::new(&st.env.root);
+    if let Err(e) = reopened {
+        return Err(c.fail("restart-failed", format!("FileSystem::new on the root of the crashed instance: {e:?}")));
+    }
+    let left_after = tmp_files(&st.env.root);
+    c.set_sample(|| json!({"in_flight": n_inflight, "temporary_files_at_crash": left_by_crash, "after_restart": left_after}));
+    if !left_after.is_empty() {
+        return Err(c.fail("leftover-file:restart", format!("{} writes in flight at the crash left {:?}; after the restart {:?} are still there", n_inflight, left_by_crash, left_after)));
+    }
+    // the object is the previous one, or exactly one of the writes that had passed its commit point
+    let got = read_back(&st);
+    if got != st.previous && !contents.iter().any(|x| Some(x) == got.as_ref()) {
+        return Err(c.fail("partial-write:restart", format!("after the restart the object reads back {:?} bytes: neither the previous content nor one of the writes in flight", got.map(|g| g.len()))));
+    }
+    Ok(())
+}
+
 /// many rounds of simultaneously released writers on one store (8 worker threads, a barrier in front of the calls):
 /// races that need two writers inside a window of a few instructions get many chances per case
 fn concurrent_burst(c: &mut Case<'_>) -> CaseResult {
@@ -463,7 +516,7 @@ fn concurrent_burst(c: &mut Case<'_>) -> CaseResult {
 }
 
 pub fn run(r: &mut Runner) {
-    r.rule = "uploads of 1..8 frames x previous state {absent, present} x fault {none, body error at every frame k, request future dropped after every number of polls p up to completion, wrong checksum for each algorithm the backend checks (and the correct one, which must be accepted under any framing), corrupted chunk signature in chunk k of a chunk-signed upload, a key that cannot be committed because it names an existing directory or lies below an existing object (alone and abandoned after every number of polls)}, each on its own runtime which is dropped to let the blocking pool quiesce; then GET must return the previous content (or nothing) unless the upload was reported successful, and the directory tree must equal the snapshot taken before. Concurrent writers (2..8, distinct contents) interleaved by harness-owned Pending schedules on a current-thread runtime, and on a multi-thread runtime (also in bursts of 120 rounds of barrier-released writers on 8 worker threads): final content is exactly one successful writer's bytes, no extra file. Non-trivial: any fault or >=2 writers; distinct by (fault, position, previous state, frame count).".into();
+    r.rule = "uploads of 1..8 frames x previous state {absent, present} x fault {none, body error at every frame k, request future dropped after every number of polls p up to completion, wrong checksum for each algorithm the backend checks (and the correct one, which must be accepted under any framing), corrupted chunk signature in chunk k of a chunk-signed upload, a key that cannot be committed because it names an existing directory or lies below an existing object (alone and abandoned after every number of polls)}, each on its own runtime which is dropped to let the blocking pool quiesce; then GET must return the previous content (or nothing) unless the upload was reported successful, and the directory tree must equal the snapshot taken before. A crash with 1..5 writes in flight (request futures leaked after p polls) followed by a restart on the same root: no temporary file survives, the object is intact. Concurrent writers (2..8, distinct contents) interleaved by harness-owned Pending schedules on a current-thread runtime, and on a multi-thread runtime (also in bursts of 120 rounds of barrier-released writers on 8 worker threads): final content is exactly one successful writer's bytes, no extra file. Non-trivial: any fault or >=2 writers; distinct by (fault, position, previous state, frame count).".into();
     r.assumptions = vec![
         "dropping a tokio runtime waits for blocking-pool work that has already started".into(),
         "true-parallel interleavings inside the kernel / blocking pool are sampled, not owned, in the multi-thread mode".into(),
@@ -520,6 +573,10 @@ pub fn run(r: &mut Runner) {
             _ => Fault::None,
         };
         single_writer(c, present, n, fault)
+    });
+    r.search("restart-sweep", r.scale(40, 1_500), 256, |c| {
+        let n = 1 + c.t.below(5);
+        restart_sweep(c, n)
     });
     r.search("concurrent-scheduled", r.scale(150, 5_000), 128, |c| concurrent(c, false));
     r.search("concurrent-multi-thread", r.scale(100, 3_000), 128, |c| concurrent(c, true));
